@@ -427,21 +427,42 @@ func runC08(c *Ctx) {
 		// a plain truncating division of a signed quantity by the day length, with no floor correction, is a violation
 		quo := 0
 		corrected := false
+		var q *ssa.BinOp
 		Instrs(de, func(in ssa.Instruction) {
-			if b, ok := in.(*ssa.BinOp); ok {
-				if b.Op == token.QUO {
-					quo++
-				}
-				if b.Op == token.REM || b.Op == token.LSS || b.Op == token.SUB {
-					corrected = true
-				}
+			if b, ok := in.(*ssa.BinOp); ok && b.Op == token.QUO {
+				quo++
+				q = b
+			}
+		})
+		sameOperand := func(a, b ssa.Value) bool {
+			if a == b {
+				return true
+			}
+			ka, okA := ConstInt(a)
+			kb, okB := ConstInt(b)
+			return okA && okB && ka == kb
+		}
+		// the step back is taken exactly when the remainder of that same division is negative
+		Instrs(de, func(in ssa.Instruction) {
+			iff, ok := in.(*ssa.If)
+			if !ok || q == nil {
+				return
+			}
+			b, ok := iff.Cond.(*ssa.BinOp)
+			if !ok || b.Op != token.LSS {
+				return
+			}
+			k, isK := ConstInt(b.Y)
+			rem, isRem := b.X.(*ssa.BinOp)
+			if isK && k == 0 && isRem && rem.Op == token.REM && sameOperand(rem.X, q.X) && sameOperand(rem.Y, q.Y) {
+				corrected = true
 			}
 		})
 		for _, cs := range u.Calls(de, Is("floorDiv", "math.Floor")) {
 			_ = cs
 			corrected = true
 		}
-		r.Check(quo == 0 || corrected, "R-DATE-FLOOR", "daysSinceEpoch", u.Pos(de.Pos()), "day number is floored", "day number is a truncating division with no floor correction: an instant before 1970 that is not at midnight encodes as the following calendar day")
+		r.Check(quo == 0 || corrected, "R-DATE-FLOOR", "daysSinceEpoch", u.Pos(de.Pos()), "day number is floored (stepped back exactly when the remainder is negative)", "day number is a truncating division whose step back is not decided by (remainder < 0): a pre-1970 instant encodes as a neighbouring calendar day (the following one when never corrected, the previous one for an exact midnight when corrected on sign alone)")
 	}
 	// ---- R-STRING-KIND-FIRST: a value whose kind is string is encoded by its underlying string, never by a String() method
 	if af := c.Fn("R-STRING-KIND-FIRST", "asString"); af != nil {
